@@ -117,7 +117,7 @@ class Inst:
     group: tuple = ()         # nesting groups (call-site ids) this instance lives in
 
 
-ACTIVE_EXCEPT = {"sample": {1}, "sample3": {1}}
+ACTIVE_EXCEPT = {"sample": {1}, "sample3": {1}, "pairall": {1, 2}, "pairany": {1, 2}}
 UNCHECKED = {"gate": {0, 1}, "halfgate": {1}, "sched": {0}}
 SCHEDULER_OPS = {"src", "ticker", "beacon", "delay", "sched"}
 
@@ -581,6 +581,11 @@ def simulate(flat: Flat, emulate_stale=False, emulate_sampled_start=False, prese
                 ready = all(S[r.target.id].valid for r in i.ins)
             elif i.op == "list2":
                 ready = any(S[r.target.id].valid for r in i.ins)
+            elif i.op == "pairall":
+                # trigger + passive bundle {a, b} behind an all-valid gate; wired with one field only, b never holds a value
+                ready = len(i.ins) == 3 and all(S[r.target.id].valid for r in i.ins)
+            elif i.op == "pairany":
+                ready = S[i.ins[0].target.id].valid and any(S[r.target.id].valid for r in i.ins[1:])
             else:
                 for q, r in enumerate(i.ins):
                     if q in unchecked:
@@ -635,7 +640,7 @@ def simulate(flat: Flat, emulate_stale=False, emulate_sampled_start=False, prese
                     s.st += 1
                     if s.st < int(i.kw.get("count", 1)):
                         request(i, s, t, t + int(i.kw.get("period", 1)))
-                elif op == "pass":
+                elif op in ("pass", "pairall", "pairany"):
                     out = vals[0]
                 elif op == "tobool":
                     out = 1 if vals[0] != 0 else 0
@@ -673,12 +678,12 @@ def simulate(flat: Flat, emulate_stale=False, emulate_sampled_start=False, prese
                     out = None
                 else:
                     raise RuntimeError("model: op " + op)
-                if out is not None and op not in ("src", "ticker", "beacon", "pass", "count", "delay", "sched", "tobool"):
+                if out is not None and op not in ("src", "ticker", "beacon", "pass", "pairall", "pairany", "count", "delay", "sched", "tobool"):
                     out %= WRAP
                 if op == "acc":
                     s.st = out
                 if not thrown:
-                    R.runs[(i.uid, t)] = (out, ins_snap)
+                    R.runs[(i.uid, t)] = (out, ins_snap[:1] if op in ("pairall", "pairany") else ins_snap)   # (the harness logs the trigger only)
                 if slot_due and not pending_due and not active_tick:
                     R.stale.append((i.uid, t))
 
